@@ -241,8 +241,9 @@ fn c02(tier: &str, thorough: bool) -> i32 {
     }
     // growth seeds: the histories that add directory / FAT / MiniFAT sectors
     for (v, seed) in growth_seeds(thorough) {
-        let a = DataAlpha { paths: vec!["/n1", "/n2"], rewrite: vec![0, 64, 4096], setlen: vec![], append: vec![], patch: vec![], remove: true };
-        add_enum(&ctx, &mut tot, "growth seed", &EnumCfg { version: v, seed, ops: data_ops(&a), depth: 2, oracles: o, extra_paths: vec![], one_reopen: true, extend_refused: false });
+        let big = seed.starts_with("b7");
+        let a = DataAlpha { paths: vec!["/n1", "/n2"], rewrite: if big { vec![64, 100_000] } else { vec![0, 64, 4096] }, setlen: vec![], append: vec![], patch: vec![], remove: !big };
+        add_enum(&ctx, &mut tot, "growth seed", &EnumCfg { version: v, seed, ops: data_ops(&a), depth: if big { 1 } else { 2 }, oracles: o, extra_paths: vec![], one_reopen: !big, extend_refused: false });
     }
     ctx.finish(tot.0, tot.1)
 }
@@ -271,11 +272,14 @@ pub fn growth_seeds(thorough: bool) -> Vec<(u16, String)> {
         // freed space present
         (3, "r3x100+s1x64".into()),
         (4, "r2x5000+s1x64".into()),
+        // just below / across the 110th FAT sector = first DIFAT sector (V3)
+        (3, "b7100000".into()),
+        (3, "b7200000".into()),
     ];
     if thorough {
         v.push((4, "s16x4080".into())); // 1024 MiniFAT cells
         v.push((3, "s16x4064+s1x2000".into()));
-        v.push((3, "b7100000".into())); // > 109 FAT sectors: DIFAT sector
+        v.push((3, "b7140000".into()));
         v.push((3, "b7200000+b100".into()));
     }
     v
@@ -304,12 +308,15 @@ fn c03(tier: &str, thorough: bool) -> i32 {
         add_enum(&ctx, &mut tot, "data deep", &EnumCfg { version: v, seed: "fresh".into(), ops: data_ops(&small), depth: if thorough { 5 } else { 4 }, oracles: o, extra_paths: vec![], one_reopen: false, extend_refused: false });
     }
     for (v, seed) in growth_seeds(thorough) {
-        let a = DataAlpha { paths: vec!["/n1", "/n2"], rewrite: vec![0, 1, 64, 65, 4096], setlen: vec![0, 100, 5000], append: vec![64], patch: vec![], remove: true };
+        let big = seed.starts_with("b7");
+        let a = DataAlpha { paths: vec!["/n1", "/n2"], rewrite: if big { vec![64, 100_000] } else { vec![0, 1, 64, 65, 4096] }, setlen: if big { vec![] } else { vec![0, 100, 5000] }, append: if big { vec![] } else { vec![64] }, patch: vec![], remove: !big };
         let mut ops = data_ops(&a);
-        ops.push(Op::CreateStorage("/n3".into()));
-        ops.push(Op::RemoveStream("/f0_0".into()));
+        if !big {
+            ops.push(Op::CreateStorage("/n3".into()));
+            ops.push(Op::RemoveStream("/f0_0".into()));
+        }
         ops.push(Op::RemoveStream("/big0".into()));
-        add_enum(&ctx, &mut tot, "growth seed", &EnumCfg { version: v, seed, ops, depth: 2, oracles: o, extra_paths: vec![], one_reopen: false, extend_refused: false });
+        add_enum(&ctx, &mut tot, "growth seed", &EnumCfg { version: v, seed, ops, depth: if big { 1 } else { 2 }, oracles: o, extra_paths: vec![], one_reopen: false, extend_refused: false });
     }
     ctx.finish(tot.0, tot.1)
 }
@@ -352,6 +359,16 @@ fn c10(tier: &str, thorough: bool) -> i32 {
         cfg.ops.push(Op::SetClsid("/a".into(), [7; 16]));
         cfg.ops.push(Op::SetStateBits("/zz".into(), 5));
         add_bfs(&ctx, &mut tot, "tree+invalid", &cfg);
+        let mut flat = flat_bfs_cfg(v, 5, thorough, o);
+        for bad in ["/m/x", "/m:", "/d/../.."] {
+            flat.ops.push(Op::CreateStream(bad.into()));
+            flat.ops.push(Op::RemoveStream(bad.into()));
+            flat.ops.push(Op::CreateStorage(bad.into()));
+        }
+        flat.ops.push(Op::RemoveStream("/zz".into()));
+        flat.ops.push(Op::RemoveStorage("/m".into()));
+        flat.ops.push(Op::CreateNewStream("/d".into()));
+        add_bfs(&ctx, &mut tot, "flat siblings + refused calls", &flat);
         let a = DataAlpha { paths: vec!["/s", "/t"], rewrite: vec![0, 65, 4096], setlen: vec![1, 4097], append: vec![64], patch: vec![(9999, 1)], remove: true };
         let mut ops = data_ops(&a);
         ops.push(Op::CreateStorage("/s".into()));
@@ -360,6 +377,11 @@ fn c10(tier: &str, thorough: bool) -> i32 {
         ops.push(Op::CreateStream("/s/x".into()));
         add_enum(&ctx, &mut tot, "data + refused extended", &EnumCfg { version: v, seed: "fresh".into(), ops, depth: 3, oracles: o, extra_paths: vec![], one_reopen: false, extend_refused: true });
     }
+    // refused (out-of-range) seeks on a handle, after every call sequence: bytes, entry length and position unchanged
+    let st = crate::e3::explore(&ctx, if thorough { &[3, 4] } else { &[3] }, if thorough { &[0, 1500, 1 << 20] } else { &[1500, 1 << 20] }, if thorough { &[0, 1025, 5000] } else { &[0, 5000] }, 3, false);
+    ctx.note(format!("handle sequences with refused seeks: configs={} sequences={} calls={}", st.configs, st.sequences, st.calls));
+    tot.0 += st.sequences;
+    tot.1 += st.calls;
     ctx.finish(tot.0, tot.1)
 }
 
@@ -410,6 +432,16 @@ fn c15(tier: &str, thorough: bool) -> i32 {
             }
         }
         let st = e1::cycles(&ctx, v, &seeds, &data_ops(&a), if thorough { 2 } else { 1 }, &cyc);
+        if !thorough {
+            // depth-2 prefixes over a smaller prefix alphabet, from the fresh file only
+            let a2 = DataAlpha { paths: vec!["/s", "/t"], rewrite: vec![0, 100, 4096], setlen: vec![], append: vec![], patch: vec![], remove: true };
+            let st2 = e1::cycles(&ctx, v, &["fresh".to_string()], &data_ops(&a2), 2, &cyc);
+            ctx.note(format!("cycles v{} depth-2 prefixes: cases={} applicable(net-zero)={} steps={}", v, st2.cases, st2.applicable, st2.steps));
+            states += st2.distinct_prefix_states;
+            trans += st2.steps;
+            ctx.add("cycle_cases", st2.cases);
+            ctx.add("cycle_cases_net_zero", st2.applicable);
+        }
         ctx.note(format!("cycles v{}: seeds={} cases={} applicable(net-zero)={} steps={} distinct_prefix_states={}", v, seeds.len(), st.cases, st.applicable, st.steps, st.distinct_prefix_states));
         states += st.distinct_prefix_states;
         trans += st.steps;
@@ -548,7 +580,13 @@ fn c14(tier: &str, thorough: bool) -> i32 {
             let mut cases: Vec<SchedCase> = Vec::new();
             for w in &wseqs {
                 for r in &rsets {
-                    cases.push(SchedCase { version: v, policy, writer: w.clone(), readers: r.clone() });
+                    cases.push(SchedCase { version: v, policy, writer: w.clone(), readers: r.clone(), big_buffer: false });
+                }
+            }
+            // big-buffer configurations: one write-back moves many sectors' worth of data
+            for w in [vec![WOp::BigWrite], vec![WOp::WriteLarge], vec![WOp::BigWrite, WOp::Shrink], vec![WOp::Grow, WOp::BigWrite]] {
+                for r in [vec![vec![ROp::Entry]], vec![vec![ROp::Walk]], vec![vec![ROp::ReadRoot]], vec![vec![ROp::Entry], vec![ROp::Walk]], vec![vec![ROp::Entry, ROp::Entry]]] {
+                    cases.push(SchedCase { version: v, policy, writer: w.clone(), readers: r, big_buffer: true });
                 }
             }
             configs += cases.len() as u64;
@@ -675,7 +713,7 @@ fn c17(tier: &str, thorough: bool) -> i32 {
         bits.push(1u32 << i);
     }
     let mut times: Vec<TimeSpec> = Vec::new();
-    let nanos_set: Vec<u32> = if thorough { (0..=250).collect() } else { vec![0, 1, 50, 99, 100, 101, 199, 200, 250, 999_999_999] };
+    let nanos_set: Vec<u32> = if thorough { (0..=250).chain([999_999_899, 999_999_900, 999_999_999]).collect() } else { (0..=250).step_by(7).chain([1, 99, 100, 101, 199, 200, 250, 999_999_900, 999_999_999]).collect() };
     // anchors: (neg, secs)
     let anchors: Vec<(bool, u64)> = vec![
         (false, 0),                  // Unix epoch
@@ -887,12 +925,24 @@ fn c18(tier: &str, thorough: bool) -> i32 {
         hists.extend(c18_histories(v, if thorough { 3 } else { 2 }, &sizes));
     }
     for (v, seed) in growth_seeds(false) {
+        if seed.starts_with("b7") {
+            continue; // multi-megabyte files: the per-index sweeps would take hours
+        }
         hists.push(History { version: v, seed, ops: vec![Op::Rewrite("/n1".into(), 65), Op::Rewrite("/n2".into(), 4096), Op::RemoveStream("/n1".into())], reopen_after: vec![false; 3] });
     }
-    let chunks: Vec<usize> = if thorough { vec![1, 2, 3, 7, 63, 64, 65, 511, 512, 513] } else { vec![1, 3, 64, 511] };
+    let chunks: Vec<usize> = if thorough { vec![1, 2, 3, 7, 63, 64, 65, 511, 512, 513] } else { vec![1, 7, 511] };
     let bufs: Vec<usize> = if thorough { vec![0, 1024, 1025, 1500, 4096, 5000] } else { vec![0, 1500] };
     // the per-index sweep is quadratic in the history length: all histories in thorough, depth-1 and seeds in quick
-    let (small, large): (Vec<History>, Vec<History>) = hists.into_iter().partition(|h| thorough || h.ops.len() <= 1 || h.seed != "d1");
+    let mut small = Vec::new();
+    let mut large = Vec::new();
+    for (i, h) in hists.into_iter().enumerate() {
+        let sweep = thorough || (h.ops.len() <= 1 && h.version == 3 && i % 3 == 0) || (h.seed != "d1" && h.seed.len() <= 7 && h.version == 3);
+        if sweep {
+            small.push(h);
+        } else {
+            large.push(h);
+        }
+    }
     let st1 = crate::e4::c18_explore(ctx, &small, &chunks, &bufs, true, &dir);
     let st2 = crate::e4::c18_explore(ctx, &large, &chunks, &bufs, false, &dir);
     let _ = std::fs::remove_dir_all(&dir);
